@@ -723,8 +723,8 @@ class ModuleNormalizer(object):
     # ------------------------------------------------------------------ generator fusion
     def _gen_eligible(self, callee, cq):
         """a generator helper that can be fused into the loop consuming it: plain parameters, not in the inventory, and every `yield` is a statement of its own
-        (its value unused) that is the LAST statement of its block, nested only in for / while / if -- so resuming after the yield means going on with the
-        enclosing loop, which is what running the consumer's body in its place does."""
+        (its value unused), nested only in for / while / if -- resuming after the yield means going on with the statement that follows it, which is what
+        running the consumer's body in its place does (a `continue` of the consumer is contained by a one-round loop around that copy of the body)."""
         if cq in self.known_funcs or self._deco_names(callee):
             return False
         a = callee.args
@@ -740,7 +740,7 @@ class ModuleNormalizer(object):
         def scan(stmts):
             for k, st in enumerate(stmts):
                 if isinstance(st, ast.Expr) and isinstance(st.value, ast.Yield):
-                    if k != len(stmts) - 1 or st.value.value is None:
+                    if st.value.value is None:
                         return False
                     ok[0] += 1
                     continue
@@ -781,9 +781,9 @@ class ModuleNormalizer(object):
             return False
         if own_level(s.body, (ast.Break,)):
             return None                      # `break` ends the consumption of the generator: not expressible by fusion
-        top_yield = any(isinstance(st, ast.Expr) and isinstance(st.value, ast.Yield) for st in callee.body)
-        if top_yield and own_level(s.body, (ast.Continue,)):
-            return None
+        # `continue` in the consumer's body means "next value": after fusion that is the next round of the generator's enclosing loop -- or, for a yield that
+        # is not inside a loop of the generator, the end of this copy of the body: such a copy is wrapped in a one-round loop so that `continue` leaves it
+        wrap_once = own_level(s.body, (ast.Continue,))
         body = copy.deepcopy(callee.body)
         if body and isinstance(body[0], ast.Expr) and isinstance(body[0].value, ast.Constant) and isinstance(body[0].value.value, str):
             body = body[1:]
@@ -796,17 +796,24 @@ class ModuleNormalizer(object):
         sub = _Subst(mapping, rename)
         body = [sub.visit(x) for x in body]
 
-        def replace(stmts):
+        def replace(stmts, in_loop=False):
             out = []
             for st in stmts:
                 if isinstance(st, ast.Expr) and isinstance(st.value, ast.Yield):
-                    out.append(ast.Assign(targets=[copy.deepcopy(s.target)], value=st.value.value, lineno=s.lineno, col_offset=0))
-                    out.extend(copy.deepcopy(s.body))
+                    bind = ast.Assign(targets=[copy.deepcopy(s.target)], value=st.value.value, lineno=s.lineno, col_offset=0)
+                    if wrap_once:
+                        self.counter += 1
+                        once = ast.For(target=ast.Name(id="_once_%d" % self.counter, ctx=ast.Store()), iter=ast.Tuple(elts=[ast.Constant(value=None)], ctx=ast.Load()),
+                                       body=[bind] + copy.deepcopy(s.body), orelse=[], lineno=s.lineno, col_offset=0)
+                        out.append(once)
+                    else:
+                        out.append(bind)
+                        out.extend(copy.deepcopy(s.body))
                     continue
                 for fld in ("body", "orelse"):
                     blk = getattr(st, fld, None)
                     if isinstance(blk, list) and blk and isinstance(blk[0], ast.stmt):
-                        setattr(st, fld, replace(blk))
+                        setattr(st, fld, replace(blk, in_loop or (isinstance(st, (ast.For, ast.While)) and fld == "body")))
                 out.append(st)
             return out
         self.counter += 1
